@@ -201,7 +201,7 @@ def run (ctx):
     tdis = [n for n in rets if 'timeoutTask' in norm(n.ast)]
     for n in tdis:
       fs = q.fact_strs(g2, n)
-      empty = all(('len(%s) == 0' % r_) in fs for r_ in res_names)
+      empty = all(('len(%s) == 0' % r_) in fs or ('%s:falsy' % r_) in fs or ('not %s:truthy' % r_) in fs for r_ in res_names)
       ctx.ob('R-DOM', sel, "the nearest-deadline waiter is resumed only when select returned nothing", empty, "under len(ro)==len(wo)==len(xo)==0" if empty else "facts %s" % fs, (mod, n.ast), 'D4')
       muts = [m for m in g2.nodes if any(call_name(c) in ('remove', 'pop', 'clear') and norm(c.func.value) in res_names for c in q.node_calls(m))] + \
              [m for m in g2.nodes if isinstance(m.ast, ast.Assign) and m is not selcall[0] and any(norm(t) in res_names for t in m.ast.targets)]
@@ -250,15 +250,14 @@ def run (ctx):
     iv = g3.interval(lambda n: n in cbn, start=ylds[0], stop=h)
     ctx.ob('R-EFFECT', tr, "one callback per wake", iv is not None and iv[1] <= 1 and g3.dominates(ylds[0], cbn[0]), "callback count per iteration %s, after the sleep" % (iv,), tr, 'D5')
     env = q.Env({'self._cancelled': True})
-    r = q.reach_under(repo, mod, g3, env, tm, start=ylds[0])
+    r = q.reach_under_cp(repo, mod, g3, env, tm, start=ylds[0])
     ctx.ob('R-DOM', tr, "a timer cancelled while sleeping does not fire", not any(c in r for c in cbn), "callback unreachable once cancelled" if not any(c in r for c in cbn) else "cancel is not re-checked after the wake", tr, 'D5')
     for what, ex in (("non-recurring timer fires once", {'self._cancelled': False, 'self._recurring': False, 'rv is False': False}),
                      ("a callback returning False stops a self-stoppable timer", {'self._cancelled': False, 'self._recurring': True, 'self._self_stoppable': True, 'rv is False': True})):
-      r = q.reach_under(repo, mod, g3, q.Env(ex), tm, start=cbn[0])
-      again = h in r
+      again = any(p_[-1] is ylds[0] for p_, e_ in q.paths_under(repo, mod, g3, q.Env(ex), cbn[0], [ylds[0], g3.exit, g3.raise_exit], tm, limit=200))
       ctx.ob('R-DOM', tr, what, not again, "loop head unreachable after the callback" if not again else "the timer loops again", tr, 'D5')
-    r = q.reach_under(repo, mod, g3, q.Env({'self._cancelled': False, 'self._recurring': True, 'rv is False': False}), tm, start=cbn[0])
-    ctx.ob('R-DOM', tr, "a recurring timer re-arms", h in r, "loop head reachable", tr, 'D5')
+    rearm_ = any(p_[-1] is ylds[0] for p_, e_ in q.paths_under(repo, mod, g3, q.Env({'self._cancelled': False, 'self._recurring': True, 'rv is False': False}), cbn[0], [ylds[0], g3.exit, g3.raise_exit], tm, limit=200))
+    ctx.ob('R-DOM', tr, "a recurring timer re-arms", rearm_, "the sleep is reached again" if rearm_ else "a recurring timer whose callback did not ask to stop never sleeps again", tr, 'D5')
     nx = [st for t, v, st, k in q.stores_in(tr.node) if norm(t) == 'self._next']
     ctx.ob('R-AGREE', tr, "the next deadline is now + interval", bool(nx) and norm(nx[0].value) == 'time.time() + self._interval', norm(nx[0]) if nx else "?", tr, 'D5')
     sy = [x for n in ylds for x in ast.walk(n.ast) if isinstance(x, ast.Call) and call_name(x) == 'Sleep']
